@@ -27,6 +27,7 @@ type c01Case struct {
 	Channel string `json:"channel"` // workflow | workflow-two-files | workflow-two-files-no-repo | action | reusable | config | config-main
 	B64     string `json:"input_base64"`
 	Text    string `json:"input_text,omitempty"` // same bytes, for the reader (lossy when not UTF-8)
+	Caller  string `json:"caller,omitempty"`     // action / reusable: the workflow using the input (default: a fixed one)
 }
 
 func (c *c01Case) bytes() []byte {
@@ -51,6 +52,66 @@ type c01Outcome struct {
 
 const c01CallerWithAction = "on: push\njobs:\n  a:\n    runs-on: ubuntu-latest\n    steps:\n      - uses: ./act\n        id: s1\n        with:\n          foo: bar\n      - run: echo ${{ steps.s1.outputs.out1 }} ${{ steps.s1.outputs.nosuch }}\n"
 const c01CallerOfReusable = "on: push\njobs:\n  call:\n    uses: ./.github/workflows/r.yml\n    with:\n      in1: a\n      nosuch: b\n    secrets:\n      s1: x\n  after:\n    needs: [call]\n    runs-on: ubuntu-latest\n    steps:\n      - run: echo ${{ needs.call.outputs.o1 }} ${{ needs.call.outputs.nosuch }}\n"
+
+func c01MapKeys(n *ye.Node, path ...string) []string {
+	for _, k := range path {
+		if n == nil || n.Kind != ye.Map {
+			return nil
+		}
+		n = n.Get(k)
+	}
+	if n == nil || n.Kind != ye.Map {
+		return nil
+	}
+	var ks []string
+	for _, k := range n.Keys {
+		if k.Kind == ye.Scalar && k.Val != "" && !strings.ContainsAny(k.Val, ":#'\"\n{}[],&*!|>%@` ") {
+			ks = append(ks, k.Val)
+		}
+	}
+	return ks
+}
+
+// c01CallerFor builds a caller of the (unmutated) reusable workflow: all declared inputs and secrets
+// are passed, all declared outputs are read.
+func c01CallerFor(callee *ye.Node) string {
+	var b strings.Builder
+	b.WriteString("on: push\njobs:\n  call:\n    uses: ./.github/workflows/r.yml\n")
+	if ins := c01MapKeys(callee, "on", "workflow_call", "inputs"); len(ins) > 0 {
+		b.WriteString("    with:\n")
+		for i, n := range ins {
+			fmt.Fprintf(&b, "      %s: %s\n", n, []string{"a", "1", "true", "${{ github.sha }}"}[i%4])
+		}
+	}
+	if secs := c01MapKeys(callee, "on", "workflow_call", "secrets"); len(secs) > 0 {
+		b.WriteString("    secrets:\n")
+		for _, n := range secs {
+			fmt.Fprintf(&b, "      %s: ${{ secrets.X }}\n", n)
+		}
+	}
+	b.WriteString("  after:\n    needs: [call]\n    runs-on: ubuntu-latest\n    steps:\n      - run: echo ${{ needs.call.outputs.nosuch }}\n")
+	for _, n := range c01MapKeys(callee, "on", "workflow_call", "outputs") {
+		fmt.Fprintf(&b, "      - run: echo ${{ needs.call.outputs.%s }}\n", n)
+	}
+	return b.String()
+}
+
+// c01ActionCallerFor: the same for a local action.
+func c01ActionCallerFor(meta *ye.Node) string {
+	var b strings.Builder
+	b.WriteString("on: push\njobs:\n  a:\n    runs-on: ubuntu-latest\n    steps:\n      - uses: ./act\n        id: s1\n")
+	if ins := c01MapKeys(meta, "inputs"); len(ins) > 0 {
+		b.WriteString("        with:\n")
+		for _, n := range ins {
+			fmt.Fprintf(&b, "          %s: x\n", n)
+		}
+	}
+	b.WriteString("      - run: echo ${{ steps.s1.outputs.nosuch }}\n")
+	for _, n := range c01MapKeys(meta, "outputs") {
+		fmt.Fprintf(&b, "      - run: echo ${{ steps.s1.outputs.%s }}\n", n)
+	}
+	return b.String()
+}
 
 // c01Exec runs one input on its channel; every Go panic is recovered here (in the harness, not in
 // the code under test) and reported.
@@ -89,7 +150,11 @@ func c01Exec(c *c01Case) (out c01Outcome) {
 		defer w.Cleanup()
 		w.Repo("")
 		w.Write("act/action.yml", string(b))
-		p := w.Write(".github/workflows/w.yml", c01CallerWithAction)
+		caller := c01CallerWithAction
+		if c.Caller != "" {
+			caller = c.Caller
+		}
+		p := w.Write(".github/workflows/w.yml", caller)
 		l, _ := al.NewLinter(&bytes.Buffer{}, &al.LinterOptions{WorkingDir: w.Root})
 		errs, err := l.LintFile(p, nil)
 		out.diags = len(errs)
@@ -101,7 +166,11 @@ func c01Exec(c *c01Case) (out c01Outcome) {
 		defer w.Cleanup()
 		w.Repo("")
 		p2 := w.Write(".github/workflows/r.yml", string(b))
-		p := w.Write(".github/workflows/w.yml", c01CallerOfReusable)
+		caller := c01CallerOfReusable
+		if c.Caller != "" {
+			caller = c.Caller
+		}
+		p := w.Write(".github/workflows/w.yml", caller)
 		l, _ := al.NewLinter(&bytes.Buffer{}, &al.LinterOptions{WorkingDir: w.Root})
 		// both orders: the callee's interface comes from the file or from the in-memory AST
 		errs, err := l.LintFiles([]string{p, p2}, nil)
@@ -184,7 +253,9 @@ var hostileScalars = []string{"", "~", "null", "nan", ".nan", ".NaN", ".inf", "-
 var hostileTags = []string{"!!float", "!!int", "!!bool", "!!null", "!!str", "!!binary", "!!map", "!!seq", "!foo", "!", "!!timestamp", "!!merge", "!!set", "!!omap"}
 
 func hostileNode(t *rapid.T, depth int) *ye.Node {
-	switch rapid.IntRange(0, 13).Draw(t, "hk") {
+	switch rapid.IntRange(0, 14).Draw(t, "hk") {
+	case 14: // nodes that are null in some sense
+		return &ye.Node{Kind: ye.Scalar, Raw: rapid.SampledFrom([]string{"!!null {}", "!!null []", "!!null ''", "&anc", "*anc", "~", "null", "", "!!null x", "!!null [a]"}).Draw(t, "nullish")}
 	case 0, 1, 2:
 		return ye.Q(rapid.SampledFrom(hostileScalars).Draw(t, "hs"), rapid.SampledFrom([]ye.Style{ye.Auto, ye.Single, ye.Double}).Draw(t, "hst"))
 	case 3:
@@ -192,7 +263,7 @@ func hostileNode(t *rapid.T, depth int) *ye.Node {
 		n.Tag = rapid.SampledFrom(hostileTags).Draw(t, "tag")
 		return n
 	case 4:
-		return &ye.Node{Kind: ye.Scalar, Raw: rapid.SampledFrom([]string{"null", "~", "", "[]", "{}", "*x", "&x v", "&x", "*nosuch", "!!float nan", "!!float .nan", "!!int 0x", "!!bool yes", "!!null x", "!!binary =", "!!str", "!!float", "!!int", "!!map {}", "!!seq []", "[[]]", "{{}}", "[{}]", "{a: [}", "|", ">", "|\n", "? a", "- -", "<<: *x", "!!merge <<", "? [a, b]\n: c", "!!set {a}", "--- x", "...", "%YAML 1.2", "\t", "\"\\x\"", "\"\\u12\"", "'a", "\"a"}).Draw(t, "raw")}
+		return &ye.Node{Kind: ye.Scalar, Raw: rapid.SampledFrom([]string{"null", "~", "", "[]", "{}", "*x", "&x v", "&x", "*nosuch", "!!float nan", "!!float .nan", "!!int 0x", "!!bool yes", "!!null x", "!!binary =", "!!str", "!!float", "!!int", "!!map {}", "!!seq []", "!!null {}", "!!null []", "!!null [a]", "!!str {}", "!!bool []", "!!int {}", "!!float [1]", "!!null 'x'", "&anc", "&anc {}", "&anc []", "*anc", "[[]]", "{{}}", "[{}]", "{a: [}", "|", ">", "|\n", "? a", "- -", "<<: *x", "!!merge <<", "? [a, b]\n: c", "!!set {a}", "--- x", "...", "%YAML 1.2", "\t", "\"\\x\"", "\"\\u12\"", "'a", "\"a"}).Draw(t, "raw")}
 	case 5:
 		l := ye.L()
 		for i := 0; i < rapid.IntRange(0, 3).Draw(t, "n"); i++ {
@@ -255,8 +326,15 @@ func hostileNode(t *rapid.T, depth int) *ye.Node {
 }
 
 // hostileMutate applies n mutations to the tree.
-func hostileMutate(t *rapid.T, root *ye.Node, n int) []string {
+func hostileMutate(t *rapid.T, root *ye.Node, n int, focus ...*ye.Node) []string {
 	var kinds []string
+	// slots below a focus node (the interface section of a callee) are preferred half of the time
+	inFocus := map[*ye.Node]bool{}
+	for _, f := range focus {
+		if f != nil {
+			f.Walk(func(nd, p *ye.Node, idx int, isKey bool) { inFocus[nd] = true })
+		}
+	}
 	for i := 0; i < n; i++ {
 		type slot struct {
 			parent *ye.Node
@@ -273,6 +351,17 @@ func hostileMutate(t *rapid.T, root *ye.Node, n int) []string {
 			return kinds
 		}
 		s := slots[rapid.IntRange(0, len(slots)-1).Draw(t, "slot")]
+		if len(inFocus) > 0 && rapid.Bool().Draw(t, "focus") {
+			var fs []slot
+			for _, o := range slots {
+				if inFocus[o.parent] {
+					fs = append(fs, o)
+				}
+			}
+			if len(fs) > 0 {
+				s = fs[rapid.IntRange(0, len(fs)-1).Draw(t, "focusslot")]
+			}
+		}
 		switch rapid.IntRange(0, 9).Draw(t, "mk") {
 		case 0: // key mutation
 			if s.isKey {
@@ -339,10 +428,28 @@ func hostileMutate(t *rapid.T, root *ye.Node, n int) []string {
 				kinds = append(kinds, "letter-case-flipped")
 			}
 		case 3: // anchor + alias pair
-			if !s.isKey && s.parent.Vals[s.idx].Kind == ye.Scalar && s.parent.Vals[s.idx].Raw == "" {
+			if !s.isKey && rapid.IntRange(0, 2).Draw(t, "emptyanchor") == 0 {
+				// an anchored empty node in place of any value; its aliases are null only after resolution
+				s.parent.Vals[s.idx] = &ye.Node{Kind: ye.Scalar, Raw: "&anc"}
+			}
+			if !s.isKey && s.parent.Vals[s.idx].Kind == ye.Scalar && (s.parent.Vals[s.idx].Raw == "" || s.parent.Vals[s.idx].Raw == "&anc") {
 				v := s.parent.Vals[s.idx]
-				v.Raw = "&anc " + "'" + strings.ReplaceAll(v.Val, "'", "''") + "'"
+				if v.Raw == "" {
+					v.Raw = "&anc " + "'" + strings.ReplaceAll(v.Val, "'", "''") + "'"
+				}
 				s2 := slots[rapid.IntRange(0, len(slots)-1).Draw(t, "slot2")]
+				if rapid.Bool().Draw(t, "aliasinsibling") {
+					// the alias in a later entry of the same mapping / sequence
+					var later []slot
+					for _, o := range slots {
+						if o.parent == s.parent && !o.isKey && o.idx > s.idx {
+							later = append(later, o)
+						}
+					}
+					if len(later) > 0 {
+						s2 = later[rapid.IntRange(0, len(later)-1).Draw(t, "sibling")]
+					}
+				}
 				if !s2.isKey && s2.parent != nil && s2.idx < len(s2.parent.Vals) {
 					s2.parent.Vals[s2.idx] = &ye.Node{Kind: ye.Scalar, Raw: "*anc"}
 				}
@@ -351,6 +458,31 @@ func hostileMutate(t *rapid.T, root *ye.Node, n int) []string {
 		}
 	}
 	return kinds
+}
+
+// hostileInterfaceEntry replaces the whole definition of one declared input / secret / output (the
+// positions decoded by the metadata readers of callers) by a hostile or null-like node.
+func hostileInterfaceEntry(t *rapid.T, sections ...*ye.Node) string {
+	var maps []*ye.Node
+	for _, s := range sections {
+		if s != nil && s.Kind == ye.Map && len(s.Vals) > 0 {
+			maps = append(maps, s)
+		}
+	}
+	if len(maps) == 0 {
+		return ""
+	}
+	m := maps[rapid.IntRange(0, len(maps)-1).Draw(t, "ifacesection")]
+	i := rapid.IntRange(0, len(m.Vals)-1).Draw(t, "ifaceentry")
+	if rapid.Bool().Draw(t, "nullish") {
+		m.Vals[i] = &ye.Node{Kind: ye.Scalar, Raw: rapid.SampledFrom([]string{"!!null {}", "!!null []", "!!null ''", "&anc", "*anc", "~", "null", "", "!!null x", "!!str", "!!map {}", "[]", "{}"}).Draw(t, "nullishentry")}
+		if m.Vals[i].Raw == "*anc" && i > 0 {
+			m.Vals[rapid.IntRange(0, i-1).Draw(t, "anchorat")] = &ye.Node{Kind: ye.Scalar, Raw: "&anc"}
+		}
+	} else {
+		m.Vals[i] = hostileNode(t, 1)
+	}
+	return "interface-entry-replaced"
 }
 
 func byteMutate(t *rapid.T, b []byte) []byte {
@@ -484,12 +616,23 @@ func TestC01(t *testing.T) {
 		}
 		r.Check(t, "action-metadata", hx.N(1200, 12000), func(rt *rapid.T) {
 			root := actionMetaBase(rt)
-			kinds := hostileMutate(rt, root, rapid.IntRange(1, 5).Draw(rt, "nmut"))
+			caller := ""
+			if rapid.IntRange(0, 3).Draw(rt, "owncaller") > 0 {
+				caller = c01ActionCallerFor(root)
+			}
+			kinds := hostileMutate(rt, root, rapid.IntRange(0, 5).Draw(rt, "nmut"), root.Get("inputs"), root.Get("outputs"))
+			if rapid.IntRange(0, 2).Draw(rt, "ifaceentry") == 0 {
+				if k := hostileInterfaceEntry(rt, root.Get("inputs"), root.Get("outputs")); k != "" {
+					kinds = append(kinds, k)
+				}
+			}
 			b := []byte(ye.Emit(root, ye.Layout{Indent: 2}))
 			if rapid.IntRange(0, 4).Draw(rt, "bytes") == 0 {
 				b = byteMutate(rt, b)
 			}
-			run(rt, newC01Case("action", b), kinds, true)
+			cc := newC01Case("action", b)
+			cc.Caller = caller
+			run(rt, cc, kinds, true)
 		})
 		r.Check(t, "reusable-workflow", hx.N(1200, 12000), func(rt *rapid.T) {
 			g := &wf.G{T: rt, Rare: true}
@@ -500,12 +643,29 @@ func TestC01(t *testing.T) {
 					break
 				}
 			}
-			kinds := hostileMutate(rt, w.Root, rapid.IntRange(1, 5).Draw(rt, "nmut"))
+			// the caller passes every input and secret the callee declared before it was mutated and reads
+			// every declared output
+			caller := ""
+			if rapid.IntRange(0, 3).Draw(rt, "owncaller") > 0 {
+				caller = c01CallerFor(w.Root)
+			}
+			var iface *ye.Node
+			if on := w.Root.Get("on"); on != nil && on.Kind == ye.Map {
+				iface = on.Get("workflow_call")
+			}
+			kinds := hostileMutate(rt, w.Root, rapid.IntRange(0, 5).Draw(rt, "nmut"), iface)
+			if iface != nil && iface.Kind == ye.Map && rapid.IntRange(0, 2).Draw(rt, "ifaceentry") == 0 {
+				if k := hostileInterfaceEntry(rt, iface.Get("inputs"), iface.Get("secrets"), iface.Get("outputs")); k != "" {
+					kinds = append(kinds, k)
+				}
+			}
 			b := []byte(ye.Emit(w.Root, g.Layout()))
 			if rapid.IntRange(0, 4).Draw(rt, "bytes") == 0 {
 				b = byteMutate(rt, b)
 			}
-			run(rt, newC01Case("reusable", b), kinds, true)
+			cc := newC01Case("reusable", b)
+			cc.Caller = caller
+			run(rt, cc, kinds, true)
 		})
 		r.Check(t, "config", hx.N(1000, 10000), func(rt *rapid.T) {
 			root := configBase(rt)
